@@ -11,7 +11,13 @@ pub struct PyWorker {
 
 impl PyWorker {
     pub fn start() -> Result<PyWorker, String> {
-        let mut child = Command::new("python3-vt")
+        let mut cmd = Command::new("python3-vt");
+        if let Ok(pool) = std::env::var("VERIF_PY_POOL") {
+            if !pool.is_empty() {
+                cmd.env("RAYON_NUM_THREADS", pool);
+            }
+        }
+        let mut child = cmd
             .arg(format!("{}/py/worker.py", crate::verif_root()))
             .env("VERIF_PYDIR", std::env::var("VERIF_PYDIR").unwrap_or_else(|_| format!("{}/.build/py", crate::verif_root())))
             .env("PYTHONDONTWRITEBYTECODE", "1")
